@@ -31,6 +31,12 @@ when AVX2 is available (for hex: the same function); the failure path may alread
 def showOut2 (op : String) (p v : Out) : List String :=
   outLines op "portable" p ++ outLines op "vector" v ++ [s!"P {op} same={if sameOut p v then 1 else 0}"]
 
+/-- base64 ops run through a third C build as well: the AVX2 file compiled without `_mm256_extract_epi64`
+(`harness/codec_avx2_noext.c`); the model of the vector path describes both configurations -/
+def showOut3 (op : String) (p v : Out) : List String :=
+  outLines op "portable" p ++ outLines op "vector" v ++ outLines op "vector-noext" v ++
+    [s!"P {op} same={if sameOut p v then 1 else 0}"]
+
 def showOut (op : String) (o : Out) : List String := showOut2 op o o
 
 def showLen (op : String) (r : Except Err Nat) : List String :=
@@ -83,10 +89,10 @@ def step (s : St) (t : List String) : St × List String :=
   let bad := (s, ["bad-op"])
   match t with
   | ["b64enc", x, l, c] => match parseHex? x, parseSize? l, parseSize? c with
-    | some x, some l, some c => if c > 16777216 then bad else (s, showOut2 "b64enc" (base64Encode x l c) (AwsVerif.CodecAvx2.base64EncodeAvx2 x l c))
+    | some x, some l, some c => if c > 16777216 then bad else (s, showOut3 "b64enc" (base64Encode x l c) (AwsVerif.CodecAvx2.base64EncodeAvx2 x l c))
     | _, _, _ => bad
   | ["b64dec", x, l, c] => match parseHex? x, parseSize? l, parseSize? c with
-    | some x, some l, some c => if c > 16777216 then bad else (s, showOut2 "b64dec" (base64Decode x l c) (AwsVerif.CodecAvx2.base64DecodeAvx2 x l c))
+    | some x, some l, some c => if c > 16777216 then bad else (s, showOut3 "b64dec" (base64Decode x l c) (AwsVerif.CodecAvx2.base64DecodeAvx2 x l c))
     | _, _, _ => bad
   | ["hexenc", x, l, c] => match parseHex? x, parseSize? l, parseSize? c with
     | some x, some l, some c => if c > 16777216 then bad else (s, showOut "hexenc" (hexEncode x l c))
